@@ -3,6 +3,7 @@
 package main
 
 import (
+	"bytes"
 	"encoding/json"
 	"os"
 	"strings"
@@ -492,6 +493,31 @@ func init() {
 			bst, _, berr := ps.post(bj)
 			o.Oracle(Meta{Stage: "resource:choquet-powerset", Input: J{"request": big}}, berr == nil && bst == 400, "choquet request with 40 criteria and missing weights was not rejected within 5 s")
 			o.Oracle(Meta{Stage: "resource:choquet-powerset:alive", Input: J{"request": big}}, ps.alive(), "server died on a choquet request with 40 criteria")
+			// parameters of one request must not survive into the next: an ELECTRE request that relies on the default
+			// distillation function, asked before and after requests that state their own (one accepted, one rejected)
+			el := func(dist interface{}) []byte {
+				mp := J{"electreCriteria": J{"c0": J{"k": 3, "q": J{"b": 1}, "p": J{"b": 3}, "v": J{"b": 6}}, "c1": J{"k": 2, "q": J{"b": 1}, "p": J{"b": 3}}}}
+				if dist != nil {
+					mp["electreDistillation"] = dist
+				}
+				b, _ := json.Marshal(J{"preferenceFunction": "electreIII", "criteria": []interface{}{J{"id": "c0", "type": "gain"}, J{"id": "c1", "type": "gain"}},
+					"knownAlternatives": []interface{}{J{"id": "a0", "criteria": J{"c0": 2, "c1": 4}}, J{"id": "a1", "criteria": J{"c0": 4, "c1": 1}}, J{"id": "a2", "criteria": J{"c0": -1, "c1": 2}}, J{"id": "a3", "criteria": J{"c0": 3, "c1": 3}}},
+					"choseToMake":       []string{"a0", "a1", "a2", "a3"}, "methodParameters": mp})
+				return b
+			}
+			plain := el(nil)
+			st0, out0, err0 := ps.post(plain)
+			seqOK := err0 == nil && st0 == 200
+			var hist []string
+			for _, d := range []interface{}{J{"a": 0, "b": 0}, J{"a": -0.2, "b": 0.1}, J{"a": 0.5, "b": -0.25}} {
+				b := el(d)
+				hist = append(hist, string(b))
+				ps.post(b)
+				st1, out1, err1 := ps.post(plain)
+				seqOK = seqOK && err1 == nil && st1 == 200 && bytes.Equal(bytes.TrimSpace(out1), bytes.TrimSpace(out0))
+			}
+			o.Oracle(Meta{Stage: "sequence:electre-default-distillation", Input: J{"request": json.RawMessage(plain), "requests_in_between": hist}, Key: "seq-electre"},
+				seqOK && ps.alive(), "an ELECTRE request relying on the default distillation function is answered differently (or not at all) after requests that stated their own function")
 			ps.stop()
 		}
 		for c := 0; o.Cases < n && unanswered < 3; c++ {
